@@ -17,6 +17,7 @@ META = {
     "level_text": "Theorems C07_* (coq/Props/C07.v) are proved for all line lists about a Gallina model of the lexical layer of parser.py (Lang/Lex.v) against a hand-written model of Python's layout rules (Lang/PyLayout.v, validated against CPython's tokenizer and ast on every run). Block extent and comment stripping are proved inside explicit guards and refuted outside them by concrete witnesses (mixed tabs, '#' in a triple-quoted literal); comment-only lines at any column, trailing comments on column-0 headers and on elif/else/except are inside the guards since the repair of the comment handling (fixed findings, replayed on every run); the line-accounting table (70 statement kinds x 4 contexts) is regenerated from the current parser and checked by computation against the fixed set of the property plus the listed gaps; `continue` left the listed gaps with the repair of the parser (fixed finding, replayed on every run) and is pinned: translated in a for/while loop and at the level of the main loop, rejected outside any loop; since the repair of the silent drops ('unknown -> ignore' became ValueError) the 127 remaining (kind, context) pairs left the gaps and are pinned Rejected (C07_former_gaps_rejected), the positive theorem C07_dispatch_total_partial (neither in the fixed set nor the one gap left => never dropped) replaced the refutation, the end of the dispatch loop is modelled (C07_tail_never_drops, C07_tail_rejects_unrecognised, for every line), one gap is left (host-side SerialMonitor.connect/close). The firmware side (Lang/EmitBlocks.v): _emit_block's treatment of IfStatement / WhileLoop / ForRangeLoop / TryStatement and the function / setup / loop sections of emit() are modelled line by line; read the way C++ groups lines into compound statements, the emitted lines are proved to be one stanza per branch, loop and handler around exactly its own lines (C07_emit_block_structure, C07_sketch_sections_structure), and - composed with the grouping of the lexical skeleton into IR nodes and with C07_roundtrip_partial - the compound statements of the firmware and the conditions each line runs under are proved to be those of Python's block tree for every layout inside the guard (C07_firmware_blocks_are_pythons_partial, C07_layout_to_firmware_partial, C07_firmware_paths_are_pythons_partial); the statement layer enters these theorems as arbitrary functions. The model is run against the real functions on enumerated and generated inputs; the property's own relations (same firmware across layouts; no unlisted line disappears; every control header of the script is in the firmware once and every numbered statement / break / continue / return runs in the function and under the chain of conditions Python gives it) are evaluated on the real transpiler.",
     "level_text_2": "Added: (a) the round trip at the level of parse() is PROVED (C07_top_roundtrip_partial, C07_top_relayout_invariant_partial: target(...) directives, import filter, column-0 while True / while / for / def, if / try chains through _collect_if/try_structure, simple statements; guard Layout.top_layout_ok) and composed with the firmware block theorems into one statement from source text to emitted C++ blocks (C07_script_to_firmware_partial, C07_two_layouts_same_firmware_partial). (b) the statement recognisers are inside the model: every RE_* pattern is translated from its parsed form into Lang/Rx.v (derivative matcher, C07_rx_match_decides), 63 of 74 are proved to be instances of five shapes, the dispatch loop of _parse_simple_lines (order, device-set guards) is regenerated from its source and pinned (C07_dispatch_chain_pinned); optional spacing between tokens is proved accepted for every spacing inside the exact guard (C07_call0_spacing_partial, C07_call_spacing_partial, C07_decl_spacing, C07_sleep_spacing) and refuted outside it by the witnesses of the two findings (C07_call_paren_space_refuted, C07_call_dot_space_refuted, C07_call_args_paren_space_refuted, C07_keyword_paren_refuted).",
     "level_text_3": "Added (third round): the statement layer between the lexical skeleton and the emitted blocks. (c) variable promotion is inside the model (Lang/Promote.v: _rewrite_nodes, the if handler's local _rewrite, _make_promotion_decls, what the while / for / try / if handlers append): for EVERY set of promoted names and every node tree the rewritten tree holds the same statements in the same places (C07_promotion_rewrite_keeps_every_statement, C07_promotion_rewrite_if_keeps_every_statement, C07_promotion_rewrite_keeps_paths), no promoted name stays declared below (C07_promotion_rewrite_assigns_promoted), and a handler adds nothing but default-initialised placeholder declarations in front of the block (C07_promoted_loop_keeps_its_body, C07_promotion_adds_only_placeholders). (d) _emit_block's statement nodes next to the de-duplication sets it threads through setup() (Lang/EmitStmt.v): emitting = resolving the device declarations against the sets, then writing (C07_emit_resolves_then_writes); resolving touches no statement node (C07_resolve_keeps_every_statement); hence in every state of the sets, inside and outside setup(), the lines of every statement node and stanza are written, in order, as often as the script makes the statement (C07_statement_lines_written_in_every_state, C07_statement_line_count, C07_statements_ignore_the_sets, C07_outside_setup_sets_unchanged). Both models run against the real functions (_rewrite_nodes, _make_promotion_decls, _emit_block with given sets) on generated IR trees, and the theorems' relations are evaluated on the real outputs (oracle).",
+    "level_text_4": "Added (fourth round): (e) the END of the script: parse()'s seen_main_loop flag is inside the model (Lang/TopFlow.v: top_flow = Lex.top_parse with the flag; None = rejected). For every script: an accepted script is parsed exactly as Lex.parse_top says and its main loop is the LAST thing it contains (C07_main_loop_is_last) - no second `while True:`, def, if / for / while / try, simple statement, import or target() call is accepted behind it; once the loop is taken ANY line that is neither blank nor a comment makes parse() reject (C07_after_main_loop_rejected), what is passed over is only blank / comment lines and nothing is built from them (C07_after_main_loop_only_junk). The regenerated line-accounting table has a fifth context AfterLoop (73 kinds x 5 contexts; new kinds: `while True:` wherever it stands, plain try/except, blank line): no kind is translated there, every kind outside the fixed set is rejected (C07_after_loop_never_translated, C07_after_loop_statements_rejected, and DispatchSpec.pinned demands it row by row). (f) FUNCTION VARIANTS: a def is parsed again, from the lines _parse_function keeps, for every further argument-type signature a call site needs; TopFlow.kept_source / variant_nodes / variant_calls model what is kept and re-parsed: every variant has the block skeleton of the def (C07_variant_has_the_defs_blocks) and, whatever the statement layer does for the signature, the compound statements of its firmware are those Python's block tree of the def prescribes (C07_variant_firmware_blocks_partial); the calls of _parse_simple_lines a re-specialisation makes are the def's own (C07_variant_calls_are_the_defs). Tie: the recorded call trace of the real parse() must be the script's own trace with such segments inserted (TopFlow.explain, also nested: a variant that needs another function's variant); every emitted variant is judged by oracle C and by the py_cs correspondence separately.",
     "level_note": "Trusted: Coq kernel, translator harness/gen/dispatch.py (black-box observation of parse+emit), extraction, OCaml driver, CPython tokenize/ast as 'what Python means'. Theorems are about the model. The RE_* patterns and the order / guards of the dispatch loop are regenerated from parser.py on every run (harness/gen/linerx.py, fail-closed) and run by a regex engine proved to decide the usual language of a regular expression.",
     "design_ref": "DESIGN.md section 4 C07, Appendix B.5",
 }
@@ -183,7 +184,7 @@ def run(ctx: C.Ctx):
     progs += G.systematic_asg_programs()
     # fourth round: helpers with nested bodies called (in assignments) with 2-3 argument-type signatures - the firmware holds
     # one variant of the def per signature, each parsed again from the lines _parse_function keeps
-    n_var = 70 if thorough else 8
+    n_var = 70 if thorough else 6
     var_from = len(progs)
     for i in range(n_var):
         progs.append(G.gen_variant_program(rng, maxdepth=rng.choice([2, 3, 3, 4])))
@@ -356,11 +357,13 @@ def run(ctx: C.Ctx):
     al_order = [(name, body, cls) for name, body, cls in G.AFTER_LOOP]
     # first every construct behind a minimal script (the smallest replay), then behind generated programs in random layouts
     mini = list(G.PRELUDE) + ["while True:  # main loop", "    led.toggle()", "    sleep(500)"]
-    mini_res = C.run_impl("c07_impl.py", {"cases": [["trace", mini]]})[0]
-    if mini_res.get("exc") or not mini_res.get("cpp"):
-        ctx.fail("a minimal script (prelude + main loop) is rejected", {"script": mini}, "accepted", mini_res.get("exc"), key="canonical-rejected")
+    # ... and behind a main loop whose body yields no node at all (only `pass` / a comment): it is the main loop all the same
+    mini2 = list(G.PRELUDE) + ["led.on()", "while True:", "    # idle", "    pass"]
+    mini_res, mini2_res = {}, {}          # filled from the batch below (entries 0 and 1)
     for name, body, cls in al_order:
         al_cases.append((name, cls, mini_res, mini + list(body)))
+    for name, body, cls in al_order:
+        al_cases.append((name, cls, mini2_res, mini2 + list(body)))
     for j in range((6 if thorough else 1) * len(al_order)):
         if not with_main:
             break
@@ -370,7 +373,13 @@ def run(ctx: C.Ctx):
         gap = [rng.choice(["", "# done", "   ", "    # inner-looking comment", "\t"]) for _ in range(rng.choice([0, 0, 1, 2]))]
         tail = [rng.choice(["", "# eof", "  "]) for _ in range(rng.choice([0, 0, 1]))]
         al_cases.append((name, cls, impl_in[k], lines + gap + list(body) + tail))
-    al_res = C.run_impl("c07_impl.py", {"cases": [["trace", l] for _, _, _, l in al_cases]}, timeout=3000) if al_cases else []
+    al_res = C.run_impl("c07_impl.py", {"cases": [["trace", mini], ["trace", mini2]] + [["trace", l] for _, _, _, l in al_cases]}, timeout=3000)
+    mini_res.update(al_res[0])
+    mini2_res.update(al_res[1])
+    al_res = al_res[2:]
+    for base_lines, base_r in ((mini, mini_res), (mini2, mini2_res)):
+        if base_r.get("exc") or not base_r.get("cpp"):
+            ctx.fail("a minimal script (prelude + main loop) is rejected", {"script": base_lines}, "accepted", base_r.get("exc"), key="canonical-rejected")
     if have_model and al_cases:
         both = ctx.model([[24, l] for _, _, _, l in al_cases] + [[25, l, r["trace"]] for (_, _, _, l), r in zip(al_cases, al_res)])
         al_model, al_explain = both[: len(al_cases)], both[len(al_cases):]
@@ -853,7 +862,7 @@ def run(ctx: C.Ctx):
                 seen_l.add(t)
                 pool.append(t)
     base_pool = list(pool)
-    for _ in range(3000 if thorough else 700):
+    for _ in range(3000 if thorough else 560):
         t = rng.choice(base_pool)
         for _k in range(rng.choice([1, 1, 2, 3])):
             t = L.mutate(rng, t)
@@ -1053,6 +1062,7 @@ def run(ctx: C.Ctx):
                  "recognisers: every RE_* pattern (extracted engine on the regenerated pattern vs the compiled pattern) on the pool of lines = hand-picked near-misses, header seeds, the probe lines of the 69 statement kinds, the statement lines of the generated programs, all spacing variants of the four statement shapes, and 700 (3000) random 1-3 character edits of those over {blank, tab, ( ) . : = # \" , _ x 1}, each after _strip_inline_comment; the dispatch loop on the same lines under three device-name environments (the real _parse_simple_lines runs with recording proxies in place of the module's RE_* objects: patterns tried in order with outcome, accepting step); spacing: every gap position over {none, blank, two blanks, tab} for led.on() / mon.write(..) / led = Led(..) / sleep(..) plus random statements over 7+26 methods, 10 classes, 10 receivers - CPython tokenize must give the same tokens, and inside the exact guard of the spacing theorems the real parser must build the same nodes as for the canonical spacing (oracle). "
                  "third round: (a) programs whose statements are drawn WITH repetition from a pool of 3-6 texts out of 17 (pin_mode / digital_write / analog_write on two pins with changing modes, led.on/off/toggle, mon.write, sleep, x = / x +=) at every depth of setup(), a function and the main loop, plus an exhaustive family (every triple over {pin_mode(7, OUTPUT), pin_mode(7, INPUT), digital_write(7, HIGH)} with a repetition, wrapped in each block kind, in setup / main loop / function; every pool statement twice in a row and again after another one; every compound statement kind twice in a row with the same header and body); the C++ lines of a statement are learnt from a reference run of the statement alone and every occurrence must show them under the path Python gives it (multiset). (b) programs with assignments to fresh names at every depth (first assignment inside for / while / try / if bodies, hence promoted), default (0, 0.0, False, \"\") and other literals, directly in front of compound statements (1-3 initialisations in a row) or elsewhere, re-assigned and bumped later, own names per section, plus the exhaustive family 4 types x 4 outer block kinds x 4 inner compound kinds x {default, other}; every assignment must be in the firmware under its path as `name = E;` or `T name = E;` (file-scope definitions count for the top level of setup), left-over firmware assignments must be default-valued (placeholders). "
                  "statement-layer IR: promotion rewrite on 160 (700) random trees + the boundary family (default / other value x 4 types x followed by if / while / for / try / simple / nothing x preceded by nothing / declaration / assignment) with 0-4 promoted names; _make_promotion_decls on 6 name lists x {top, nested}; _emit_block inside / outside setup() with empty and pre-filled sets on 120 (500) trees over 15 statement specs (drawn with repetition) and 12 device declarations. "
+                 f"fourth round: (a) {n_var} random + {len(G.systematic_variant_programs())} systematic programs whose helper functions (one or two parameters, sometimes an annotated one; bodies with if / elif / else, for, while, try / except nested up to 4 deep, conditions on the parameter, value returns inside branches and loops, `continue` / `break`, a call of another helper in return position) are called in assignments with 2-3 argument-type signatures (int / float / bool literals; from column 0, from inside an if block, from the main loop) so that the firmware holds 2-3 variants of one def - canonical layout + 2 random layouts each; EVERY emitted variant is compared with the def by oracle C (path, item multisets; view j keeps the j-th variant of every function) and by the model (py_cs of the def's lines vs the compound statements of that variant); the recorded _parse_simple_lines calls must be the script's own plus re-specialisation segments of its defs (TopFlow.explain). (b) after the main loop: 33 constructs (second `while True:` x3, def x3, if, if/else, for, while <cond>, try, 7 simple statements, break / continue / return, 3 imports, target(), pass, print, docstring, global, 3 comment shapes, blank lines) at column 0 behind a minimal script, behind a script whose main loop yields no node (`pass`), and behind generated programs in random layouts with junk lines in between: statements must be rejected, lines of the fixed set rejected or without effect on the firmware, comment / blank lines without effect; the same as a dispatch obligation: context AfterLoop of the regenerated table (73 kinds). "
                  "non-trivial = a layout differing from the canonical one / a line the stripper changes / a non-empty span / a header text some regex matches."),
         "samples": samples,
         "distribution": {**dist, "programs": n_prog, "inguard_layouts": len(inguard), "perturbed_scripts": len(perturbed), "relayout_pairs": n_pairs,
@@ -1077,6 +1087,8 @@ def run(ctx: C.Ctx):
                        "C++ compound statements are read line-wise (a line ending in `{` opens, a line `}` closes): braces inside string literals or several statements per line are outside the reader - the emitter writes one statement per line",
                        "non-ASCII identifier / digit characters in the patterns (\\w, \\d, \\b are modelled for ASCII; generated lines are ASCII plus Unicode blanks)",
                        "optional spacing around operators and commas inside argument / condition text (the recognisers see it as `.*`): re-layout oracle on the real transpiler only",
+                       "WHEN a function variant is made and for which signature (type inference at the call sites: C02's model): TopFlow.explain accepts a re-specialisation segment of any def of the script at any point of the call trace; HOW MANY variants the firmware holds is not constrained by this check (each one that is emitted is judged)",
+                       "_import_end (parenthesised imports over several lines) in the flag model: TopFlow.top_flow skips one import line like Lex.top_parse; the oracle B3 covers the multi-line forms on the real parser",
                        "emit(): hoisting of declarations into setup(), order of function variants; ScriptFw.script_sections states one section per def in script order, then setup(), then loop()"],
         "trusted_base": C.COMMON_TRUSTED + ["harness/gen/dispatch.py + harness/c07_dispatch.py (probe scripts; outcome = exception / identical text / different text)",
                                             "CPython 3.12 tokenize + ast as the reference for Lang/PyLayout.v",
